@@ -126,7 +126,10 @@ def finish(rep, level='model_checking', technique=''):
     exit_code = 0
     new_violations = []
     os.makedirs(os.path.join(VERIF, 'replays', rep.pid), exist_ok=True)
+    seen = set()
     for v in rep.violations:
+        if v['key'] in seen: continue
+        seen.add(v['key'])
         k = next((k for k in known if k['key'] == v['key']), None)
         if k is not None:
             print('KNOWN-FINDING: property=%s %s' % (rep.pid, k.get('what', v['description'])))
